@@ -262,6 +262,12 @@ theorem parseDigit_code_tie (c : Nat) (au : Bool) :
     UU.parseDigit c au = (if (Gen.uu_parseDigit c au).2 then some (Gen.uu_parseDigit c au).1 else none) :=
   CodeTies.parseDigit_tie c au
 
+/-- **tie to the source**: `ID.Version` and `ID.Variant` as translated from `uu/id.go` on this run (masks and shifts
+of the two words as naturals below 2^64) are the model's accessors -/
+theorem accessors_code_tie (i : ID) :
+    i.version = Gen.uu_Version i.hi.toNat i.lo.toNat ∧ i.variant = Gen.uu_Variant i.hi.toNat i.lo.toNat :=
+  ⟨CodeTies.version_tie i, CodeTies.variant_tie i⟩
+
 theorem paths_agree (i : ID) :
     marshalText i = format [] i false ∧ UU.toString i = format [] i false ∧
     formatVerb i 115 = format [] i false ∧ formatVerb i 118 = format [] i false ∧ formatVerb i 117 = format [] i true := by
